@@ -388,11 +388,22 @@ def ite(c, a, b):
 # --------------------------------------------------------------------------------------------------
 # arrays
 
+def _leaf_simplify(t):
+    """an index expression that simplifies to a variable or a numeral (e.g. H + (k - H)) is replaced by it; anything
+    else is left exactly as written (other proofs match index expressions syntactically)"""
+    if not z3.is_expr(t) or t.num_args() == 0:
+        return t
+    r = z3.simplify(t)
+    if r.num_args() == 0:
+        return r
+    return t
+
+
 def select(arr, idx, _depth=0):
     """Select with eager beta-reduction: through store / ite spines down to lambdas, so that the solver is not
     asked to combine the array theory with lambda terms"""
     if z3.is_quantifier(arr) and arr.is_lambda() and arr.num_vars() == len(idx):
-        return z3.substitute_vars(arr.body(), *reversed(list(idx)))
+        return z3.substitute_vars(arr.body(), *reversed([_leaf_simplify(i) for i in idx]))
     if _depth < 12 and z3.is_app(arr):
         k = arr.decl().kind()
         if k == z3.Z3_OP_STORE and _spine_has_lambda(arr):
